@@ -27,7 +27,8 @@ def events_of(line):
     t = line.split()
     ntup = int(t[10])
     toks = t[11 + ntup:]
-    arity = {"I": 2, "N": 1, "X": 1, "W": 2, "UA": 4, "UD": 1, "UT": 2, "UC": 1, "UR": 2, "UX": 1}
+    arity = {"I": 2, "N": 1, "X": 1, "W": 2, "UA": 4, "UD": 1, "UT": 2, "UC": 1, "UR": 2, "UX": 1,
+             "UO": 5, "UP": 3}
     out = []
     i = 0
     while i < len(toks):
@@ -41,7 +42,7 @@ def events_of(line):
 
 def event_kinds(short):
     t = short.split()[5:]
-    return [x for x in t if x in ("I", "N", "X", "W", "UA", "UD", "UT", "UC", "UR", "UX")]
+    return [x for x in t if x in ("I", "N", "X", "W", "UA", "UD", "UT", "UC", "UR", "UX", "UO", "UP")]
 
 
 def unhex(s):
@@ -443,6 +444,11 @@ def raw_spec(e, before, files_before, proto, listen):
     replaced / appended / removed.  None: outside the domain of the formats (empty field,
     a name the text format cannot carry)"""
     dyn, obs, cnt = before
+    if e[0] in ("UO", "UP"):
+        # the same call from a session of another transport: the new record carries that one,
+        # every other record keeps its own
+        proto = int(e[1]).to_bytes(len(proto), "little")
+        e = ["UA" if e[0] == "UO" else "UR"] + list(e[2:])
     if e[0] == "UA":
         key, tup, pkt = unhex(e[1]), unhex(e[2]), unhex(e[3])
         osc = None if e[4] == "~" else unhex(e[4])
@@ -518,7 +524,7 @@ def check(line, info):
         return [("no output for the last process", None)]
     last = info["segs"][-1]
     server_level = all(e[0] in ("I", "N", "X") for e in evs)
-    raw_level = all(e[0] in ("UA", "UD", "UT", "UC", "UR", "UX", "X") for e in evs)
+    raw_level = all(e[0] in ("UA", "UD", "UT", "UC", "UR", "UX", "UO", "UP", "X") for e in evs)
     procs = split_processes(evs)
     dec = dict((sid, decode_state(files, la, lt)) for sid, files in info["st"].items())
 
